@@ -168,7 +168,7 @@ impl Append for RollingFileAppender {
         let mut writer = self.writer.lock();
 
         let is_pre_process = self.policy.is_pre_process();
-        let log_writer = self.get_writer(&mut writer)?;
+        let log_writer = self.get_writer(&mut writer, false)?;
 
         if is_pre_process {
             let len = log_writer.len;
@@ -184,7 +184,7 @@ impl Append for RollingFileAppender {
 
             self.policy.process(&mut file)?;
 
-            let log_writer_new = self.get_writer(&mut writer)?;
+            let log_writer_new = self.get_writer(&mut writer, false)?;
             self.encoder.encode(log_writer_new, record)?;
             log_writer_new.flush()?;
         } else {
@@ -216,19 +216,23 @@ impl RollingFileAppender {
         }
     }
 
-    fn get_writer<'a>(&self, writer: &'a mut Option<LogWriter>) -> io::Result<&'a mut LogWriter> {
+    fn get_writer<'a>(
+        &self,
+        writer: &'a mut Option<LogWriter>,
+        initial: bool,
+    ) -> io::Result<&'a mut LogWriter> {
         if writer.is_none() {
+            // Only the very first open may truncate: when the file is reopened
+            // after a roll it is either gone or, if the roll failed, still
+            // holds records that must not be discarded.
+            let truncate = !self.append && initial;
             let file = OpenOptions::new()
                 .write(true)
-                .append(self.append)
-                .truncate(!self.append)
+                .append(!truncate)
+                .truncate(truncate)
                 .create(true)
                 .open(&self.path)?;
-            let len = if self.append {
-                file.metadata()?.len()
-            } else {
-                0
-            };
+            let len = if truncate { 0 } else { file.metadata()?.len() };
             *writer = Some(LogWriter {
                 file: BufWriter::with_capacity(1024, file),
                 len,
@@ -292,7 +296,7 @@ impl RollingFileAppenderBuilder {
         }
 
         // open the log file immediately
-        appender.get_writer(&mut appender.writer.lock())?;
+        appender.get_writer(&mut appender.writer.lock(), true)?;
 
         Ok(appender)
     }
